@@ -81,8 +81,12 @@ class UserLookupError(_Tagged, LookupError):
     pass
 
 
+class UserBaseExc(_Tagged, BaseException):
+    """not an `Exception`: stands for KeyboardInterrupt / SystemExit / asyncio.CancelledError raised in a callback"""
+
+
 EXC_KINDS = [UserExc, UserKeyError, UserValueError, UserRuntimeError, UserExc, UserNotImplemented, UserAttributeError,
-             UserLookupError, UserExc, UserExc]
+             UserLookupError, UserBaseExc, UserExc]
 
 
 def user_exc(tag):
@@ -918,7 +922,9 @@ class Session:
             if asyncio.iscoroutine(r):
                 r = await r
             rt.lines.append(f"R {i} ok {rt.fmt_res(r)} cur={rt.seen()} tid={self.cur_tid}")
-        except Exception as e:
+        except BaseException as e:
+            if not isinstance(e, (Exception, _Tagged)):
+                raise
             rt.lines.append(f"R {i} err {rt.exc_s(e)} cur={rt.seen()} tid={self.cur_tid}")
             if op[0] in ("construct", "reconstruct", "fresh"):
                 self.dead = True
@@ -934,7 +940,9 @@ class Session:
                 rt.lines.append(r)
                 return
             rt.lines.append(f"R {i} ok {rt.fmt_res(r)} cur={rt.seen()} tid={self.cur_tid}")
-        except Exception as e:
+        except BaseException as e:
+            if not isinstance(e, (Exception, _Tagged)):
+                raise
             rt.lines.append(f"R {i} err {rt.exc_s(e)} cur={rt.seen()} tid={self.cur_tid}")
             if op[0] in ("construct", "reconstruct", "fresh"):
                 self.dead = True
